@@ -81,7 +81,7 @@ PROPS = {
                   ("IM", 14, has("IM2", "IM3")), ("HE", 2, has("BddNode:scratch", "BddNode:fields")),
                   ("DT", 7, has("BddPtr", "BottomUpBuilder::or:", "BottomUpBuilder::compose:")),
                   ("FS", 2, has("or_lst", "and_lst")), ("ST", 2, None), ("GL", 1, has("GL6")), ("VO", 14, vo_sel("::bdd::", "var_order")),
-                  ("GL", 8, has("GL1", "GL2", "ite_helper:GL4", "GL5", "GL8")),
+                  ("GL", 8, has(":GL1:", ":GL2:", "ite_helper:GL4", ":GL5:", ":GL8:")),
                   ("SH", 5, has("RobddBuilder", "BottomUpBuilder<repr::bdd::BddPtr> for T>::var"))],
         "explanation": "Six structural clauses of BDD operation correctness. (e) the standard-triple normalisation Ite::new "
                        "preserves ite(f,g,h) on every path for every truth assignment (ST: exhaustive abstract interpretation over "
@@ -101,7 +101,7 @@ PROPS = {
                   ("IM", 14, has("IM2", "IM3")), ("HE", 4, has("BinarySDD:scratch", "SddOr:scratch", "BinarySDD:fields", "SddOr:fields")),
                   ("ST", 2, None), ("SH", 1, has("SddPtr> for T>::condition")), ("SA", 12, None), ("VX", 9, None),
                   ("VO", 1, vo_sel("::sdd::", only_label_order=True)),
-                  ("GL", 7, has("GL1", "GL2", "SddPtr> for T>::ite:GL4", "SddPtr> for T>::and:GL4", "AllIteTable:GL8")),
+                  ("GL", 10, has(":GL1:", ":GL2:", "SddPtr> for T>::ite:GL4", "SddPtr> for T>::and:GL4", "AllIteTable:GL8", ":GL10:")),
                   ("BT", 8, None)],
         "explanation": "Complement coherence of every place the SDD code touches subs/children of a possibly complemented node "
                        "(and_sub_desc, and_prime_desc, and_cartesian, condition, SddPtr::{low,high,neg,is_neg}): operands of "
@@ -270,7 +270,7 @@ PROPS = {
     },
     "C16": {
         "level": "proof",
-        "rules": [("GL", 18, hasnot("GL3", "component-cache", "GL6", "GL7")), ("CP", 2, has("IteTable:compl-flag")), ("ST", 2, None)],
+        "rules": [("GL", 21, hasnot("GL3", "component-cache", "GL6", "GL7")), ("CP", 2, has("IteTable:compl-flag")), ("ST", 2, None)],
         "explanation": "Complete structural argument for the first sentence: Lru::get returns Some(e.val) only under the "
                        "true edge of e.key == key (GL1); insert writes one Element{key,val,hash} of its own arguments into "
                        "the slot that get reads, grow re-inserts whole triples (GL2); the adapter's hash is a function of "
